@@ -53,7 +53,7 @@ func genC18(r *Rnd, t Tier) *Case {
 	if r.P(0.65) {
 		spec.Proto = "http"
 		spec.Method = pick(r, "GET", "POST", "PUT", "DELETE")
-		spec.Body = r.Intn(6)
+		spec.Body = r.Intn(7)
 		spec.BodySize = pick(r, 0, 1, 17, 1024, 4096, 65536)
 		if spec.Body == BodyNil || spec.Body == BodyEmpty {
 			spec.BodySize = 0
